@@ -113,6 +113,24 @@ def handleMain (st : State) (req : List String) : State × String :=
     match xs.mapM decRat with
     | some l => (st, "ok " ++ " ".intercalate ((fracs l).map encRat))
     | none => (st, "bad-request")
+  | "cfracs" :: kind :: av :: xs =>
+    -- fractions of one kind from the stored contents: triples N lam mass
+    let rec triples : List Rat → Option (List Nuc)
+      | a :: b :: c :: rest => (triples rest).map (fun l => ⟨a, b, c⟩ :: l)
+      | [] => some []
+      | _ => none
+    match decRat av, xs.mapM decRat with
+    | some av, some l =>
+      match triples l with
+      | some ns =>
+        let r := if kind == "activity" then some (activityFractions ns)
+                 else if kind == "mass" then some (massFractions av ns)
+                 else if kind == "mole" then some (moleFractions av ns) else none
+        match r with
+        | some r => (st, "ok " ++ " ".intercalate (r.map encRat))
+        | none => (st, "bad-request")
+      | none => (st, "bad-request")
+    | _, _ => (st, "bad-request")
   | ["tonum", cls, u, x, lam, mass] =>
     match decStr u, decRat x, decRat lam, decRat mass with
     | some u, some x, some lam, some mass =>
